@@ -41,10 +41,10 @@ Proof. intro H; apply Rmin_left; exact H. Qed.
 Lemma Rmin_is_right x y : y <= x -> Rmin x y = y.
 Proof. intro H; apply Rmin_right; exact H. Qed.
 
-(* a maximum whose two arguments cannot be ordered (an exact tie through
-   transcendental functions, e.g. backward (forward censor) against censor) *)
-Lemma Rmax_close a b o t : Rabs (a - o) <= t -> Rabs (b - o) <= t -> Rabs (Rmax a b - o) <= t.
-Proof. intros Ha Hb. unfold Rmax. destruct (Rle_dec a b); assumption. Qed.
+(* A maximum / minimum whose two arguments cannot be ordered by `interval` (an
+   exact tie through transcendental functions, e.g. backward (forward censor)
+   against censor, or y = forward(censor) exactly): the goal is proved for both
+   arguments ([Rmax_case] / [Rmin_case]). *)
 
 Ltac tr_ineq := interval with (i_prec 140).
 
@@ -90,11 +90,13 @@ Ltac tr_step :=
   | |- context [Rmax ?a ?b] =>
       tr_pure a; tr_pure b;
       first [ rewrite (Rmax_is_left a b) by tr_ineq
-            | rewrite (Rmax_is_right a b) by tr_ineq ]
+            | rewrite (Rmax_is_right a b) by tr_ineq
+            | pattern (Rmax a b); apply Rmax_case ]
   | |- context [Rmin ?a ?b] =>
       tr_pure a; tr_pure b;
       first [ rewrite (Rmin_is_left a b) by tr_ineq
-            | rewrite (Rmin_is_right a b) by tr_ineq ]
+            | rewrite (Rmin_is_right a b) by tr_ineq
+            | pattern (Rmin a b); apply Rmin_case ]
   | |- context [Rltb ?a ?b] =>
       tr_pure a; tr_pure b;
       first [ rewrite (Rltb_is_true a b) by tr_ineq
@@ -108,7 +110,6 @@ Ltac tr_step :=
       first [ rewrite (Reqb_is_false_lt a b) by tr_ineq
             | rewrite (Reqb_is_false_gt a b) by tr_ineq
             | rewrite (Reqb_is_true a b) by tr_ineq ]; tr_red
-  | |- Rabs (Rmax ?a ?b - ?o) <= ?t => apply (Rmax_close a b o t)
   end.
 
 Ltac tr_finish :=
